@@ -575,12 +575,32 @@ Definition store := nat -> list F.
 Definition upd (st : store) (s : nat) (l : list F) : store :=
   fun k => if Nat.eqb k s then l else st k.
 
+(* draw() together with the cache the instance holds afterwards, ALSO when an
+   exception is raised: DistLogNormal.draw is math.exp(DistNormal.draw()), and
+   _next_gaussian has already stored the second gaussian when math.exp raises
+   OverflowError, so the following draw() returns from the cache.  In every
+   other exception path the cache is as before the call. *)
+Definition draw_c (pv : bool) (d : dist) (cache : option F)
+  : list F -> res (value F) * option F * list F :=
+  fun us =>
+  match d with
+  | DLogNormal mu sigma _ _ =>
+      match draw_normal pv mu sigma cache us with
+      | (Val t, r) => (match nexp N (fst t) with Val e => Val (VF e) | Err e => Err e end, snd t, r)
+      | (Err e, r) => (Err e, cache, r)
+      end
+  | _ =>
+      match draw pv d cache us with
+      | (Val (v, c), r) => (Val v, c, r)
+      | (Err e, r) => (Err e, cache, r)
+      end
+  end.
+
 (* one draw() call on an instance: result, instance afterwards, store afterwards *)
 Definition inst_draw (pv : bool) (st : store) (i : inst)
   : res (value F) * inst * store :=
-  match draw pv (idist i) (icache i) (st (isid i)) with
-  | (Val (v, c), rest) => (Val v, mkInst (idist i) (isid i) c, upd st (isid i) rest)
-  | (Err e, rest) => (Err e, i, upd st (isid i) rest)
+  match draw_c pv (idist i) (icache i) (st (isid i)) with
+  | (r, c, rest) => (r, mkInst (idist i) (isid i) c, upd st (isid i) rest)
   end.
 
 (* _set_stream(stream): type check, re-point, drop the cached gaussian
